@@ -10,8 +10,8 @@ import traceback
 from . import core
 
 FINDINGS_FILE = os.path.join(core.VERIF, "KNOWN_FINDINGS.txt")
-EVIDENCE_DIR = os.path.join(core.VERIF, "evidence")
-REPLAY_DIR = os.path.join(core.VERIF, "replays")
+EVIDENCE_DIR = os.path.join(core.VERIF, "evidence" if core.REPO == "/repo" else ".work/evidence-alt")
+REPLAY_DIR = os.path.join(core.VERIF, "replays" if core.REPO == "/repo" else ".work/replays-alt")
 
 
 def pmap(func, items, workers=None, chunksize=1):
@@ -100,6 +100,7 @@ class Check:
         self.replay_fn = replay_fn
         self.open, self.fixed = load_findings(prop)
         self.built = None
+        self._fallback = []
 
     # -- bookkeeping
     def count(self, key, n=1):
@@ -138,6 +139,9 @@ class Check:
             self.nontrivial(k)
         for s in res.get("samples", ()):
             self.sample(s)
+        for s in res.get("samples_fallback", ()):
+            if len(self._fallback) < 3:
+                self._fallback.append(jsonable(s))
         for v in res.get("violations", ()):
             self.violation(v["signature"], v.get("detail"), v.get("case"))
         for k, n in res.get("inconclusive", {}).items():
@@ -184,6 +188,8 @@ class Check:
                            "tier": self.tier, "first": vs[0]}, f, indent=1)
             lines.append("VIOLATION property=%s replay=%s signature=%s count=%d" % (self.prop, path, sig, len(vs)))
         total_inc = sum(self.inconclusive.values())
+        if not self.samples:
+            self.samples = self._fallback[:3]
         cov = {
             "evaluations": self.evaluations,
             "distinct_nontrivial": len(self.distinct),
